@@ -73,7 +73,18 @@ def analyse_woven(text):
     cur_fn = None
     cur_blk = None
     cur_lab = None
+    cur_lemma = None
     for i, l in enumerate(lines, 1):
+        m = re.match(r'pub proof fn (\w+).*//#lemma:\s*([A-Z0-9 ,]+)\s*$', l)
+        if m:
+            cur_lemma = m.group(1)
+            obligations['lemma/%s' % cur_lemma] = dict(fn='__lemmas', sec='lemma', label=cur_lemma,
+                                                       props_override=[p for p in re.split(r'[ ,]+', m.group(2)) if p], clauses=[re.sub(r'\s*//#.*$', '', l).strip()])
+        if cur_lemma:
+            fn_of[i] = 'lemma:' + cur_lemma
+            if l.startswith('}'):
+                cur_lemma = None
+            continue
         m = re.match(r'//@FN< (\w+)', l)
         if m:
             cur_fn = m.group(1)
@@ -192,6 +203,8 @@ def map_error(d, lines, fn_of, blk_of, lab_of, fname):
     s0 = prim[0] if prim else (spans[0] if spans else None)
     f = fn_at(s0) if s0 else None
     where = lines[s0['line_start'] - 1].strip() if s0 else ''
+    if f and f.startswith('lemma:'):
+        return 'lemma/%s' % f[6:], msg, where, '__lemmas'
     return '%s/safety' % f, msg, where, f
 
 
